@@ -3,6 +3,21 @@
 import json, os, subprocess
 
 CLAIMS = {
+ "C07": dict(
+   category="exploration", design_ref="DESIGN.md §5 C07, Appendix A",
+   technique="differential testing (rapid) of generated selector ASTs × generated linked block graphs against an independent reference interpreter of the selector semantics (thread-set big-step formulation), for WalkAdv and WalkMatching, three compilation routes",
+   text="Selector ASTs over every clause kind (matcher, subset matcher, all, fields, index, range, union, recursion with depth limits / edges / stop-at) are compiled from spec data, through the builder package and from JSON text, and walked over generated graphs of linked blocks (shared and repeated links). The ordered list of (path, reason, value) visits, the ordered list of block loads, and the matching-only walk must equal what a reference interpreter, written in a deliberately different style (no derived selectors), computes on the abstract graph.",
+   note="Trusted: the reference interpreter (harness/refsel) and graph model. Generator constraints where the selector spec is silent are listed in DESIGN Appendix A (same-depth edges per recursion, stop-at only with limit none, canonical numeric field names); those corners are exercised for totality under C10 only."),
+ "C14": dict(
+   category="exploration", design_ref="DESIGN.md §5 C14",
+   technique="property-based testing (rapid): every visit of an explore-all walk over generated graphs is re-resolved by Get, Focus and stepwise LookupBySegment and compared with the abstract graph's resolution; generated arbitrary paths for error/no-error agreement; path/string round trip and value semantics of Path",
+   text="For generated graphs (keys incl. empty, slash, NUL, numeric-looking) every position reachable by an explore-all recursive walk through links is resolved again from the root by Get, Focus (Progress.Path checked) and one LookupBySegment per segment with links loaded through the same LinkSystem, using the walk's own path object, the path rebuilt from strings and its re-parsed string form; all must equal the visited node and the abstract resolution. Drawn arbitrary paths must fail exactly when the abstract resolution fails (non-canonical numeric list segments: only agreement is required). Path String/ParsePath round-trips and Append/Join/Truncate/Shift never alias.",
+   note="Trusted: abstract graph resolution. Blocks that are bare links are not generated (a walk visits them as links while Get dereferences again)."),
+ "C15": dict(
+   category="exploration", design_ref="DESIGN.md §5 C15",
+   technique="metamorphic testing (rapid): each traversal control applied alone to generated (graph, selector) pairs and compared with the prefix / suffix / subsequence / subtree-removal of the unrestricted walk; all budget values and all start paths enumerated per pair",
+   text="Against the unrestricted WalkAdv of each generated pair: NodeBudget=N for every N in 0..V+1 must give exactly the first min(N,V) visits and ErrBudgetExceeded iff N<V; LinkBudget likewise for loads and the visits before the first refused load; StartAtPath for every visited path must give exactly the tail of the visit sequence and load exactly the ancestors of the start point plus the blocks from it on; LinkVisitOnlyOnce must load each link at most once and visit the unrestricted sequence minus the subtrees below repeated links; a SkipMe loader must remove exactly the skipped blocks' subtrees.",
+   note="Trusted: reference interpreter for the once/skip expectations; no preloader (documented as approximate)."),
  "C05": dict(
    category="exploration", design_ref="DESIGN.md §5 C05",
    technique="model-based testing over generated operation histories (rapid): model map (prototype,value)->link, independent hash + hand-built CID construction, reference DAG-CBOR bytes, load = stored value",
